@@ -271,6 +271,25 @@ def run_fidelity_executor(ctx: Ctx):
                     restore_wait(saved)
             st = systems.comp_state(comp)
             states.append((st, canon_ds(direct)))
+            if mode == 'serial':
+                # predictions, Jacobians and Hessians of the trained component through an executor (random completion order) versus serially
+                xq = {f'x{k}': np.array([0.31, 0.62, 0.93]) for k in range(nx)}
+                sched2 = random.Random(seed + 2)
+                ex2 = SchedExecutor(lambda m: sched2.sample(range(m), m))
+                saved2 = install_wait(ex2)
+                try:
+                    for fname in ('predict', 'gradient', 'hessian'):
+                        fn = getattr(comp, fname)
+                        ser = fn(xq); par = fn(xq, executor=ex2)
+                        for o in ser:
+                            a_, b_ = np.asarray(ser[o], dtype=float), np.asarray(par[o], dtype=float)
+                            if a_.shape != b_.shape or not np.allclose(a_, b_, rtol=1e-12, atol=1e-13, equal_nan=True):
+                                ctx.violate('C15:executor-vs-serial', f'Component.{fname} of {o}: shape {b_.shape} / values through an executor differ from the '
+                                            f'serial result (shape {a_.shape})', {'fidelity_executor': n, 'seed': seed, 'function': fname}); break
+                except Exception as e:
+                    ctx.violate('C15:executor-vs-serial', f'Component.{fname} through an executor raised {type(e).__name__}: {e}', {'fidelity_executor': n, 'seed': seed})
+                finally:
+                    restore_wait(saved2)
         case = {'fidelity_executor': n, 'seed': seed}
         ctx.case(case, nontrivial=True, kind='fidelity-executor')
         if states[0][1] != states[1][1]:
